@@ -399,9 +399,17 @@ type vConn struct {
 	in      []byte
 	written int
 	closed  bool
+	// deadline: a read/write deadline is in force; unguarded: reads or writes
+	// issued without one (on a real connection a peer that stops sending would
+	// block such a call forever)
+	deadline  bool
+	unguarded int
 }
 
 func (c *vConn) Read(p []byte) (int, error) {
+	if !c.deadline {
+		c.unguarded++
+	}
 	if len(c.in) == 0 {
 		return 0, io.EOF
 	}
@@ -409,11 +417,17 @@ func (c *vConn) Read(p []byte) (int, error) {
 	c.in = c.in[n:]
 	return n, nil
 }
-func (c *vConn) Write(p []byte) (int, error)        { c.written += len(p); return len(p), nil }
+func (c *vConn) Write(p []byte) (int, error) {
+	if !c.deadline {
+		c.unguarded++
+	}
+	c.written += len(p)
+	return len(p), nil
+}
 func (c *vConn) Close() error                       { c.closed = true; return nil }
 func (c *vConn) LocalAddr() net.Addr                { return nil }
 func (c *vConn) RemoteAddr() net.Addr               { return nil }
-func (c *vConn) SetDeadline(t time.Time) error      { return nil }
+func (c *vConn) SetDeadline(t time.Time) error      { c.deadline = !t.IsZero(); return nil }
 func (c *vConn) SetReadDeadline(t time.Time) error  { return nil }
 func (c *vConn) SetWriteDeadline(t time.Time) error { return nil }
 
@@ -439,6 +453,8 @@ func Harness_C13_stream_hostile() {
 	first := c.in
 	err := l.handleConn(c)
 	v.Assert("C13/stream/conn-closed", c.closed)
+	// no hang: every read and write of the handler is bounded by a deadline
+	v.Assert("C13/stream/every-read-has-a-deadline", c.unguarded == 0)
 	if n < 2 || first[1] != supportedVersion || (first[0] != uint8(messageTypeJoin) && first[0] != uint8(messageTypeLeave)) {
 		v.Assert("C13/stream/malformed-rejected", err != nil)
 		v.Assert("C13/stream/nothing-written", c.written == 0)
